@@ -74,7 +74,14 @@ type c04Case struct {
 
 func (cs *c04Case) limitExp() uint {
 	if cs.Kind == "csi" {
-		return uint(cs.MinShift + 3*cs.Depth)
+		ms, d := cs.MinShift, cs.Depth
+		if ms == 0 {
+			ms = csi.DefaultShift
+		}
+		if d == 0 {
+			d = csi.DefaultDepth
+		}
+		return uint(ms + 3*d)
 	}
 	return 29
 }
@@ -1330,6 +1337,9 @@ func checkC04(c *ctx) {
 			cs := g.unsortedCase(k)
 			run := cs.build(r, true)
 			r.hist("unsorted." + k)
+			for _, code := range run.codes {
+				r.hist(fmt.Sprintf("unsorted.add.%s.%c", k, code))
+			}
 			d.add("c04.codes %s %s %s", cs.Kind, cs.cfgText(), cs.recsText())
 			impl = append(impl, string(run.codes))
 			if !run.panicked {
